@@ -219,11 +219,26 @@ type obs struct {
 	hadCookie bool
 }
 
-func runHRR(pr hs.Parrot, script *tls.VerifServerScript, wantExt bool) *obs {
+func runHRR(pr hs.Parrot, script *tls.VerifServerScript, wantExt bool, partner *hs.Parrot, preset bool) *obs {
 	p := hs.SharedPKI()
 	o := &obs{cookieIdx: -1}
 	var uc *tls.UConn
-	o.r = hs.Run(hs.Opts{ID: pr.ID, ClientCfg: p.ClientConfig(), ServerCfg: p.ServerConfig("h2", "http/1.1"), Script: script,
+	ccfg := p.ClientConfig()
+	if preset {
+		ccfg.CurvePreferences = []tls.CurveID{tls.X25519, tls.CurveP256, tls.CurveP384, tls.CurveP521}
+	}
+	if partner != nil {
+		// the second UConn shares ccfg; it builds (ApplyPreset + ApplyConfig write its spec into the Config) after the first
+		// ClientHello of this connection is on the wire and before the HelloRetryRequest goes out
+		script.OnClientHello = func([]byte) {
+			a, b := net.Pipe()
+			ub := tls.UClient(a, ccfg, partner.ID)
+			ub.BuildHandshakeState()
+			a.Close()
+			b.Close()
+		}
+	}
+	o.r = hs.Run(hs.Opts{ID: pr.ID, ClientCfg: ccfg, ServerCfg: p.ServerConfig("h2", "http/1.1"), Script: script,
 		Prepare: func(u *tls.UConn) error {
 			uc = u
 			// Handshake() calls BuildHandshakeState again (u_conn.go:376); the marshal is repeated on the same values
@@ -286,10 +301,17 @@ func cookieOf(c *vh.Ctx, n int, tag string) []byte {
 type job struct {
 	pi      int
 	pr      hs.Parrot
-	kind    string // "valid", "cookie-only", "unoffered", "shared", "nochange"
+	kind    string // "valid", "cookie-only", "unoffered", "shared", "nochange", and the shared-Config / preset-Config kinds
 	group   uint16
 	cookie  int
 	wantExt bool
+	// suite: TLS 1.3 cipher suite the server is made to select (0 = its own choice)
+	suite uint16
+	// partner: another parrot that builds its handshake state ON THE SAME *tls.Config while this connection waits for the
+	// server's reply (triggered from the scripted server's OnClientHello); uTLS writes each spec's lists into the Config
+	partner *hs.Parrot
+	// preset: Config.CurvePreferences set by the application before UClient (all four classical curves)
+	preset bool
 }
 
 func run(c *vh.Ctx) {
@@ -297,17 +319,45 @@ func run(c *vh.Ctx) {
 	cookieSizes := []int{0, 1, 32, 255, 4094}
 	var jobs []job
 	tls13 := 0
+	// probes of all TLS 1.3 parrots first: partners for the shared-Config scenarios are chosen from them
+	type probed struct {
+		pi int
+		pr hs.Parrot
+		w  *hs.WireHello
+	}
+	var ps []probed
 	for pi, pr := range hs.Parrots() {
 		w := probe(pr)
 		if w == nil || !hs.ContainsU16(w.SupportedVersions, tls.VersionTLS13) || !w.HasKeyShare {
 			c.Count("parrot-without-tls13")
 			continue
 		}
+		ps = append(ps, probed{pi, pr, w})
+	}
+	// a TLS 1.3 parrot (other than self) that lists / does not list group g, rotating with the seed
+	partnerFor := func(self string, g uint16, lists bool, salt int) *hs.Parrot {
+		for k := range ps {
+			q := ps[(k+salt+int(c.Seed))%len(ps)]
+			if q.pr.Name != self && hs.ContainsU16(q.w.SupportedGroups, g) == lists {
+				pr := q.pr
+				return &pr
+			}
+		}
+		return nil
+	}
+	for _, pp := range ps {
+		pi, pr, w := pp.pi, pp.pr, pp.w
 		tls13++
 		var valid []uint16
 		for _, g := range classical {
 			if hs.ContainsU16(w.SupportedGroups, g) && !hs.ContainsU16(w.KeyShareGroups, g) {
 				valid = append(valid, g)
+			}
+		}
+		var suites13 []uint16
+		for _, s := range w.CipherSuites {
+			if s == tls.TLS_AES_128_GCM_SHA256 || s == tls.TLS_AES_256_GCM_SHA384 || s == tls.TLS_CHACHA20_POLY1305_SHA256 {
+				suites13 = append(suites13, s)
 			}
 		}
 		first := true
@@ -318,33 +368,66 @@ func run(c *vh.Ctx) {
 				if wantExt {
 					first = false
 				}
-				_ = gi
-				jobs = append(jobs, job{pi, pr, "valid", g, n, wantExt})
+				jobs = append(jobs, job{pi: pi, pr: pr, kind: "valid", group: g, cookie: n, wantExt: wantExt})
+			}
+			// every TLS 1.3 suite the parrot offers (SHA-256 and SHA-384 transcripts: the message_hash substitution depends on
+			// the hash), the server made to select it; cookie size rotates
+			for si, su := range suites13 {
+				n := cookieSizes[(pi+gi+si+int(c.Seed))%3]
+				jobs = append(jobs, job{pi: pi, pr: pr, kind: "valid", group: g, cookie: n, suite: su})
+				if thorough {
+					jobs = append(jobs, job{pi: pi, pr: pr, kind: "valid", group: g, cookie: 255, suite: su, wantExt: true})
+				}
+			}
+			// one *tls.Config shared with a parrot that does NOT list g, building in between: the HRR is still valid for this hello
+			if gi == (pi+int(c.Seed))%len(valid) || thorough {
+				if q := partnerFor(pr.Name, g, false, pi); q != nil {
+					jobs = append(jobs, job{pi: pi, pr: pr, kind: "valid-shared", group: g, cookie: 32, partner: q})
+				}
 			}
 		}
 		if len(valid) == 0 {
 			c.Count("parrot-without-unshared-classical-group")
 		}
 		// cookie-only HelloRetryRequest (RFC 8446 allows it): key_share must stay as it was
-		for _, n := range []int{16, 300} {
-			jobs = append(jobs, job{pi, pr, "cookie-only", 0, n, thorough})
+		for i, n := range []int{16, 300} {
+			j := job{pi: pi, pr: pr, kind: "cookie-only", cookie: n, wantExt: thorough}
+			if len(suites13) > 0 {
+				j.suite = suites13[(pi+i)%len(suites13)]
+			}
+			jobs = append(jobs, j)
 		}
 		// invalid selections
 		for _, g := range []uint16{25, 24, 23, 29, 30} {
 			if !hs.ContainsU16(w.SupportedGroups, g) {
-				jobs = append(jobs, job{pi, pr, "unoffered", g, 0, false}, job{pi, pr, "unoffered", g, 32, false})
+				jobs = append(jobs, job{pi: pi, pr: pr, kind: "unoffered", group: g}, job{pi: pi, pr: pr, kind: "unoffered", group: g, cookie: 32})
+				// the application pre-set Config.CurvePreferences to more than the spec lists
+				jobs = append(jobs, job{pi: pi, pr: pr, kind: "unoffered-preset", group: g, preset: true})
 				break
+			}
+		}
+		// every classical group this hello does not list but ANOTHER TLS 1.3 parrot does: that parrot builds on the same Config
+		// between the first flight and the HelloRetryRequest
+		nshared := 0
+		for _, g := range classical {
+			if hs.ContainsU16(w.SupportedGroups, g) {
+				continue
+			}
+			if q := partnerFor(pr.Name, g, true, pi+nshared); q != nil && (nshared == 0 || thorough) {
+				jobs = append(jobs, job{pi: pi, pr: pr, kind: "unoffered-shared", group: g, partner: q},
+					job{pi: pi, pr: pr, kind: "unoffered-shared", group: g, cookie: 32, partner: q, preset: true})
+				nshared++
 			}
 		}
 		for _, g := range w.KeyShareGroups {
 			if !hs.IsGREASE(g) {
-				jobs = append(jobs, job{pi, pr, "shared", g, 0, false})
+				jobs = append(jobs, job{pi: pi, pr: pr, kind: "shared", group: g})
 				if thorough {
-					jobs = append(jobs, job{pi, pr, "shared", g, 32, false})
+					jobs = append(jobs, job{pi: pi, pr: pr, kind: "shared", group: g, cookie: 32})
 				}
 			}
 		}
-		jobs = append(jobs, job{pi, pr, "nochange", 0, 0, false})
+		jobs = append(jobs, job{pi: pi, pr: pr, kind: "nochange"})
 	}
 	c.Extra["tls13_parrots"] = tls13
 	c.Extra["jobs"] = len(jobs)
@@ -356,7 +439,7 @@ func run(c *vh.Ctx) {
 	sem := make(chan struct{}, 8)
 	for i, j := range jobs {
 		cookies[i] = cookieOf(c, j.cookie, j.pr.Name+j.kind)
-		s := &tls.VerifServerScript{HRRGroup: tls.CurveID(j.group), HRRCookie: cookies[i]}
+		s := &tls.VerifServerScript{HRRGroup: tls.CurveID(j.group), HRRCookie: cookies[i], Suite: j.suite}
 		if j.kind == "nochange" {
 			s.ForceHRR = true
 		}
@@ -366,7 +449,7 @@ func run(c *vh.Ctx) {
 		go func(i int, j job) {
 			defer wg.Done()
 			defer func() { <-sem }()
-			results[i] = runHRR(j.pr, scripts[i], j.wantExt)
+			results[i] = runHRR(j.pr, scripts[i], j.wantExt, j.partner, j.preset)
 		}(i, j)
 	}
 	wg.Wait()
@@ -376,7 +459,17 @@ func run(c *vh.Ctx) {
 }
 
 func describe(j job) map[string]any {
-	return map[string]any{"parrot": j.pr.Name, "kind": j.kind, "hrr_group": j.group, "cookie_len": j.cookie}
+	m := map[string]any{"parrot": j.pr.Name, "kind": j.kind, "hrr_group": j.group, "cookie_len": j.cookie}
+	if j.suite != 0 {
+		m["server_suite"] = j.suite
+	}
+	if j.partner != nil {
+		m["shared_config_with"] = j.partner.Name
+	}
+	if j.preset {
+		m["config_curve_preferences_preset"] = true
+	}
+	return m
 }
 
 func judge(c *vh.Ctx, j job, cookie []byte, o *obs) {
@@ -392,7 +485,7 @@ func judge(c *vh.Ctx, j job, cookie []byte, o *obs) {
 		return
 	}
 	switch j.kind {
-	case "valid", "cookie-only":
+	case "valid", "cookie-only", "valid-shared":
 		judgeValid(c, j, cookie, o)
 	default:
 		judgeInvalid(c, j, cookie, o)
@@ -417,7 +510,7 @@ func judgeInvalid(c *vh.Ctx, j job, cookie []byte, o *obs) {
 	}
 	m := fmt.Sprintf("(Negotiate.mkHello 771 772 0 %s %d 0 0 %d %s None [])", vh.Bytes(r.Wire.SessionID), r.Trace.HRRSuite, j.group, vh.Bool(len(cookie) > 0))
 	term := fmt.Sprintf("(CReject %s %s %d %d)", qualify(hs.ViewTerm(r)), m, hs.ClientAlert(r), len(r.Hellos))
-	c.Case("reject-"+j.kind, term, fmt.Sprintf("%s/%s/%d/%d", j.kind, name, j.group, j.cookie), true,
+	c.Case("reject-"+j.kind, term, fmt.Sprintf("%s/%s/%d/%d/%v", j.kind, name, j.group, j.cookie, j.preset), true,
 		map[string]any{"in": in, "alert": hs.ClientAlert(r), "client_err": fmt.Sprint(r.ClientErr)})
 }
 
@@ -438,6 +531,11 @@ func judgeValid(c *vh.Ctx, j job, cookie []byte, o *obs) {
 		c.Fail("complete/"+name, "handshake completed on another group than the HelloRetryRequest's", in,
 			fmt.Sprintf("client %d server %d", r.ClientCurve, r.ServerCurve), j.group)
 	}
+	if j.suite != 0 && (r.ClientState.CipherSuite != j.suite || r.ServerState.CipherSuite != j.suite) {
+		c.Fail("complete/"+name, "handshake completed on another cipher suite than the one the server selected", in,
+			fmt.Sprintf("client %#04x server %#04x", r.ClientState.CipherSuite, r.ServerState.CipherSuite), fmt.Sprintf("%#04x", j.suite))
+	}
+	c.Count(fmt.Sprintf("completed-with-suite-%#04x", r.ClientState.CipherSuite))
 	if len(r.Hellos) != 2 {
 		c.Fail("complete/"+name, "expected two ClientHellos on the wire", in, len(r.Hellos), 2)
 		return
@@ -554,7 +652,7 @@ func judgeValid(c *vh.Ctx, j job, cookie []byte, o *obs) {
 	} else if o.skOK && o.skAfterOK {
 		term := fmt.Sprintf("(CStep %d %d %d %d %d %d %s %d %s %s)", len(h1.SID), len(h1.Suites)/2, len(h1.Comp), r.View.PSKIdentities,
 			j.group, shareLen[j.group], vh.Bytes(cookie), idx, o.skBefore, o.skAfter)
-		c.Case("step-"+kind, term, fmt.Sprintf("%s/%d/%d", name, j.group, j.cookie), true,
+		c.Case("step-"+kind, term, fmt.Sprintf("%s/%d/%d/%d", name, j.group, j.cookie, j.suite), true,
 			map[string]any{"in": in, "cookie_index": idx, "extensions_before": o.nBefore, "ids1": ids(h1.Exts), "ids2": ids(h2.Exts)})
 	} else {
 		c.Count("step-not-modelled")
@@ -568,7 +666,7 @@ func judgeValid(c *vh.Ctx, j job, cookie []byte, o *obs) {
 		}
 		term := fmt.Sprintf("(CWire %s %s %d %d %s %s %d %s)", vh.Bytes(r.Hellos[0]), vh.Bytes(r.Hellos[1]), r.View.PSKIdentities,
 			j.group, vh.Bytes(fresh), vh.Bytes(cookie), idx, o.extBefore)
-		c.Case("wire-"+kind, term, fmt.Sprintf("%s/%d/%d", name, j.group, j.cookie), true, nil)
+		c.Case("wire-"+kind, term, fmt.Sprintf("%s/%d/%d/%d", name, j.group, j.cookie, j.suite), true, nil)
 	}
 }
 
